@@ -128,6 +128,7 @@ func (o cliOpts) args(cmd string, headerPath string) []string {
 const headerText = "// Copyright header inserted by -header_file.\n\n"
 
 const stalePrior = "//go:build !wireinject\n// +build !wireinject\n\npackage app\n\n// stale generated file\nfunc StaleLeftover() int { return 42 }\n"
+
 // garbage after the package clause: the go tool tolerates this in a file excluded by its
 // constraint regardless of file age (a file with no package clause is refused by the
 // go command's package index once it is older than 2s, so it is not a usable damage class)
